@@ -373,6 +373,7 @@ func runC08(e *Env) {
 
 	// 7. extra connections: nothing but the auth stream before authentication
 	c08Extra(e, lp, code, note)
+	c08Sequences(e, code, note)
 
 	e.R.SetExtra("handshakes_by_strategy", counts)
 	e.R.Require(counts["control"] >= 7 && counts["alterations"] >= e.Pick(90, 800) && counts["relay"] >= 4, "too few handshakes ran")
